@@ -1225,9 +1225,34 @@ class Product:
             if k == "call":
                 sub = g.callee_inst.get(n)
                 if sub is not None:
-                    # enter callee: kill nothing; callee locals are fresh slots
+                    # enter callee: kill nothing; callee locals are fresh slots. A tagged value passed BY VALUE (`helper(res, flag)`) keeps
+                    # what is known about it: the parameter's slot starts with the argument's tag (and its origin)
+                    nt = tags
+                    if sub.kind == "call":
+                        for ai, a_ in enumerate(t.get("args", [])):
+                            if a_.get("k") not in ("copy", "move"):
+                                continue
+                            # (only plain flags: rules that read evidence off Option/Result tests inside helpers need those tests to
+                            #  stay visible as tests)
+                            pl_ = sub.body["locals"][ai + 1]["ty"] if ai + 1 < len(sub.body["locals"]) else ""
+                            if pl_ != "bool":
+                                continue
+                            src = g.slot_of(inst, a_["p"])
+                            if src is None:
+                                continue
+                            tg0 = tags.get(src)
+                            subs0 = self._subtags(tags, src)
+                            if tg0 is None and not subs0:
+                                continue
+                            if nt is tags:
+                                nt = dict(tags)
+                            if tg0 is not None:
+                                nt[(sub.id, ai + 1, ())] = tg0
+                            for rel, v in subs0:
+                                if len(rel) <= 3:
+                                    nt[(sub.id, ai + 1, rel)] = v
                     for m, lab in g.succ[n]:
-                        outs.append((m, tags, ()))
+                        outs.append((m, nt, ()))
                 else:
                     self._call_event(inst, n, t, tags)
                     short = bool(t.get("callee")) and bool(_SHORT_CIRCUIT.search(t["callee"]["path"])) and bool(g.closure_insts.get(n))
